@@ -328,6 +328,28 @@ def r4_accidentals(ctx):
         ctx.check(carried, 'R4', at, nrt.qualname, 'alteration-carried',
                   'the accidental (ALTERATION sub-token) reaches the agnostic output',
                   'the ALTERATION sub-token is neither converted nor appended on the agnostic path: the accidental is lost')
+    # whenever the conversion produced a pitch, every exit of the export uses it (with or without a duration)
+    rets = symex.returns(nrt, limit=20000)
+    bad = []
+    n_conv = 0
+    cbcall = "kwargs.get('convert_pitch_to_agnostic')("
+    for cond, val, sp in rets:
+        conds = [(src(c), t) for c, t in sp.conds]
+        has_cb = any(s_ == "kwargs.get('convert_pitch_to_agnostic') is not None" and t for s_, t in conds) or \
+            any(s_ == "kwargs.get('convert_pitch_to_agnostic') is None" and not t for s_, t in conds)
+        no_pitch = any(('TokenCategory.PITCH' in s_ and not t and 'convert_pitch' not in s_) for s_, t in conds)
+        result_none = any(s_.startswith(cbcall) and s_.endswith('is not None') and not t for s_, t in conds) or \
+            any(s_.startswith(cbcall) and s_.endswith('is None') and t for s_, t in conds)
+        pitches_empty = any(s_.startswith('[s for s in') and 'TokenCategory.PITCH' in s_ and not t for s_, t in conds)
+        if has_cb and not no_pitch and not result_none and not pitches_empty:
+            n_conv += 1
+            if cbcall not in src(val):
+                bad.append([s_[:50] for s_, t in conds if 'DURATION' in s_ or 'duration' in s_][:1])
+    ctx.check(not bad and n_conv > 0, 'R4', nrt.loc, nrt.qualname, 'agnostic-pitch-dropped-on-some-path',
+              f'on every exit reached with a conversion callback and pitch letters the converted pitch is emitted ({n_conv} paths)',
+              f'some exit reached with a conversion callback and pitch letters emits the kern letters instead of the converted pitch '
+              f'(path conditions {bad[:2]}): notes without a duration (grace notes, stemless notes, exclude=[DURATION]) keep their kern '
+              f'pitch under every clef')
     ae = ctx.prog.func(f'{N.TOKENIZERS}.AEKernTokenizer.tokenize')
     cb = ctx.prog.nested_functions(ae)
     okcb = False
@@ -405,9 +427,17 @@ def _subst_names(node, mapping):
 def r6_clef_in_force(ctx, rule='R6'):
     et = ctx.prog.func(f'{EXP}.export_token')
     nd = et.params[1]
+    # the clef in force is a function of the node being exported only: no state survives from one cell to the next
+    from . import shared
+    shared.effect_free(ctx, rule, [f'{EXP}.export_token'],
+                       'every cell is encoded under the clef recorded for ITS node; a tokenizer / clef remembered from an earlier '
+                       'cell is stale after a clef change in a sibling sub-spine or when the clef token itself is filtered out')
     gets = [n for n in walk_local(et.node) if isinstance(n, ast.Call) and isinstance(n.func, ast.Attribute) and n.func.attr == 'get'
             and src(n.func.value) == f'{nd}.last_signature_nodes.nodes']
-    ctx.expect_count(rule, 'clef lookup in export_token', len(gets), 1)
+    if not gets:
+        ctx.violation(rule, et.loc, et.qualname, 'clef-not-read-per-cell',
+                      'export_token no longer reads the clef from the signature context of the node it exports')
+        return
     # the class the listener builds for clefs
     ec = ctx.prog.func(f'{N.LISTENER}.BaseANTLRSpineParserListener.exitClef')
     built = [F.constructed_class(ctx, n, ec) for n in walk_local(ec.node) if isinstance(n, ast.Call)]
